@@ -32,17 +32,25 @@ BASE = dict(N=2, PR=2, MinStake=2, MaxVals=1, UnstakeTime=1, Window=2, MinSigned
             JailDur=1, MaxEvAge=1, FracDen=4, FracDS=2, FracDT=1, Fee=1, GenBal=(9, 9), GenVals=set(),
             DaoTokens=3, Dev=set(), Amts={2, 4}, Dts={1}, BurnNums={2}, MaxHeight=3, MaxTx=2, MaxExt=0,
             EvOn=False, MissOn=False, BadTxOn=False, Kinds={"stake", "unstake"}, SendTos={1}, Props={1},
-            AwardTos={1}, EvPowers={1}, EvUnknown=False, MaxRO=0, ParamOwner=1, ParamVals={1, 2})
+            AwardTos={1}, EvPowers={1}, EvUnknown=False, MaxRO=0, ParamOwner=1, ParamVals={1, 2}, GenExported=False, GenPrev=(-1, -1))
 
 
 def cfg(**over):
     c = dict(BASE)
     c.update(over)
+    if len(c["GenPrev"]) != c["N"]:
+        c["GenPrev"] = tuple([-1] * c["N"])
     return c
 
 
-def gv(*pairs):
-    return {tlagen.rec(v=v, tokens=t) for v, t in pairs}
+def gv(*vals):
+    """genesis validators: (v, tokens) staked, or (v, tokens, status, jailed, uat)"""
+    out = set()
+    for x in vals:
+        v, t = x[0], x[1]
+        status, jailed, uat = (x[2], x[3], x[4]) if len(x) > 2 else (2, False, -1)
+        out.add(tlagen.rec(v=v, tokens=t, status=status, jailed=jailed, uat=uat))
+    return out
 
 
 # which spec variables each property makes normative (DESIGN.md 6.2)
@@ -81,7 +89,10 @@ PROFILES = {
         "mc": [cfg(N=2, Kinds={"stake", "unstake", "send"}, SendTos={4}, Amts={2}, MaxExt=1, AwardTos={1}, BurnNums={4}, MaxHeight=3, MaxTx=2, EvOn=True, EvPowers={1})],
         "mcT": [cfg(N=2, Kinds=ALLK, SendTos={4}, Amts={2, 4}, MaxExt=1, AwardTos={1}, BurnNums={1, 4}, MaxHeight=3, MaxTx=2, EvOn=True, EvPowers={1})],
         "sim": [cfg(N=3, GenBal=(9, 9, 9), GenVals=gv((1, 4), (2, 2)), MaxVals=2, UnstakeTime=2, Kinds=ALLK, SendTos={1, 5}, Amts={1, 2, 3, 4}, MaxExt=2,
-                    AwardTos={1, 2, 5}, BurnNums={1, 2, 4}, Props={0, 1, 2}, MaxHeight=7, MaxTx=3, EvOn=True, MissOn=True, EvPowers={1, 2, 9})],
+                    AwardTos={1, 2, 5}, BurnNums={1, 2, 4}, Props={0, 1, 2}, MaxHeight=7, MaxTx=3, EvOn=True, MissOn=True, EvPowers={1, 2, 9}),
+                # a genesis with unstaking validators (one of them jailed), as an exported chain has
+                cfg(N=3, GenBal=(9, 9, 9), GenVals=gv((1, 4), (2, 2, 1, False, 2), (3, 2, 1, True, 1)), MaxVals=3, UnstakeTime=2, Kinds={"stake", "unstake", "unjail"}, Amts={2},
+                    MaxHeight=5, MaxTx=2, Dts={1}, EvOn=True, EvPowers={1})],
     },
     "C05": {
         "mc": [cfg(N=3, GenBal=(9, 9, 9), MaxVals=2, Amts={2, 4}, Kinds={"stake", "unstake", "unjail"}, MaxHeight=3, MaxTx=2, MissOn=True, Window=1, MinSignedNum=1, MinSignedDen=1),
@@ -90,6 +101,10 @@ PROFILES = {
                     MissOn=True, EvOn=True, EvPowers={1, 2}, MaxExt=1, BurnNums={1, 2}, Props={0, 1, 2}, Dts={0, 1, 2}),
                 cfg(N=3, GenBal=(9, 9, 9), GenVals=gv((1, 2), (2, 2), (3, 2)), MaxVals=1, Amts={2, 4}, Kinds={"stake", "unstake", "unjail"}, MaxHeight=8, MaxTx=3,
                     MissOn=True, EvOn=True, EvPowers={1}, UnstakeTime=0),
+                # an exported genesis (consistent: the previous-state powers are the top-2 powers of the exported state;
+                # validator 3 is staked but below the cut-off and therefore absent from them)
+                cfg(N=3, GenBal=(9, 9, 9), GenVals=gv((1, 6), (2, 4), (3, 2)), GenExported=True, GenPrev=(3, 2, -1), MaxVals=2, Amts={2, 4}, Kinds={"stake", "unstake"},
+                    MaxHeight=5, MaxTx=2, MissOn=True, Window=2),
                 # MaxValidators changed by governance between blocks (below and above the number of candidates)
                 cfg(N=4, GenBal=(9, 9, 9, 9), GenVals=gv((1, 6), (2, 4), (3, 4), (4, 2)), MaxVals=2, Amts={2, 4}, Kinds={"setparam", "stake", "unstake"}, ParamVals={1, 2, 3, 4},
                     MaxHeight=7, MaxTx=3, MissOn=True, Window=2)],
@@ -104,6 +119,9 @@ PROFILES = {
                 # the minimum stake itself is changed by governance (MinStakeHeld is then suspended; everything else still conforms)
                 cfg(N=3, GenBal=(9, 9, 9), GenVals=gv((1, 4), (2, 2)), MaxVals=3, UnstakeTime=1, Amts={2, 3}, Kinds={"setparam", "stake", "unstake", "unjail"}, ParamVals={2},
                     MaxHeight=6, MaxTx=3, Dts={1}, MissOn=True, Window=1, MinSignedNum=1, MinSignedDen=1, FracDT=2),
+                # an exported genesis: one validator already unstaking (queued at its completion time), previous-state powers given
+                cfg(N=3, GenBal=(9, 9, 9), GenVals=gv((1, 4), (2, 4), (3, 2, 1, False, 2)), GenExported=True, GenPrev=(2, 2, -1), MaxVals=3, UnstakeTime=2, Amts={2}, Kinds={"stake", "unstake"},
+                    MaxHeight=5, MaxTx=3, Dts={0, 1}),
                 # several validators in the same unstaking-queue slot, forced unstakes (evidence) while they wait
                 cfg(N=3, GenBal=(9, 9, 9), GenVals=gv((1, 4), (2, 4), (3, 2)), MaxVals=3, UnstakeTime=3, Amts={2}, Kinds={"stake", "unstake"}, MaxHeight=6, MaxTx=3, Dts={1},
                     EvOn=True, EvPowers={1})],
@@ -136,7 +154,10 @@ PROFILES = {
         "mc": [cfg(N=2, GenBal=(9, 9), GenVals=gv((1, 4), (2, 2)), MaxVals=2, Kinds={"unjail", "unstake", "stake"}, Amts={2}, MaxTx=2, MissOn=True, EvOn=True, EvPowers={1}, Window=1,
                    MinSignedNum=1, MinSignedDen=1, MaxHeight=4, JailDur=2, Dts={1})],
         "sim": [cfg(N=3, GenBal=(9, 9, 9), GenVals=gv((1, 6), (2, 4), (3, 2)), MaxVals=2, Kinds={"unjail", "unstake", "stake"}, Amts={2, 3}, MaxTx=3, MissOn=True, EvOn=True, EvPowers={1, 2},
-                    Window=2, MinSignedNum=1, MinSignedDen=2, MaxHeight=10, JailDur=2, Dts={0, 1, 2, 3}, FracDen=8, FracDT=1, FracDS=2)],
+                    Window=2, MinSignedNum=1, MinSignedDen=2, MaxHeight=10, JailDur=2, Dts={0, 1, 2, 3}, FracDen=8, FracDT=1, FracDS=2),
+                # a genesis (as exported from a running chain) holding a jailed unstaking validator and consistent previous-state powers
+                cfg(N=3, GenBal=(9, 9, 9), GenVals=gv((1, 6), (2, 4), (3, 4, 1, True, 3)), GenExported=True, GenPrev=(3, 2, -1), MaxVals=3, Kinds={"unjail", "unstake", "stake"}, Amts={2, 4},
+                    MaxTx=3, MissOn=True, EvOn=True, EvPowers={1, 2}, Window=2, MaxHeight=7, JailDur=2, UnstakeTime=2, Dts={0, 1, 2})],
     },
     "C10": {
         "mc": [cfg(N=2, Kinds={"stake", "send", "unstake"}, SendTos={2}, Amts={2}, MaxExt=2, AwardTos={1, 5}, Props={0, 1}, MaxHeight=3, MaxTx=2, UnstakeTime=0, BurnNums=set())],
@@ -154,7 +175,7 @@ PROFILES = {
 
 SIZES = {  # (sim traces per worker, depth, OneIn, sim timeout s, mc timeout s)
     "quick": dict(num=40, depth=40, onein=12, simt=60, mct=150, maxbeh=1200, rich=120),
-    "thorough": dict(num=400, depth=60, onein=12, simt=420, mct=1500, maxbeh=15000, rich=4000),
+    "thorough": dict(num=250, depth=60, onein=12, simt=420, mct=1500, maxbeh=9000, rich=1500),
 }
 
 
@@ -163,12 +184,13 @@ def dec(num, den):
 
 
 def app_cfg(c, seed):
-    gvals = [{"v": g["v"], "status": 2, "tokens": g["tokens"]} for g in sorted(c["GenVals"], key=lambda g: g["v"])]
+    gvals = [{"v": g["v"], "status": g["status"], "tokens": g["tokens"], "jailed": g["jailed"], "uat": g["uat"]} for g in sorted(c["GenVals"], key=lambda g: g["v"])]
     return {"app": {"N": c["N"], "PR": c["PR"], "MinStake": c["MinStake"], "MaxVals": c["MaxVals"], "UnstakeTime": c["UnstakeTime"],
                     "Window": c["Window"], "MinSigned": dec(c["MinSignedNum"], c["MinSignedDen"]), "JailDur": c["JailDur"],
                     "MaxEvAge": c["MaxEvAge"], "FracDS": dec(c["FracDS"], c["FracDen"]), "FracDT": dec(c["FracDT"], c["FracDen"]),
                     "FracDen": c["FracDen"], "Fee": c["Fee"], "GovFee": max(c["Fee"], 0) or -1, "FeeMult": 1, "Bal": list(c["GenBal"]), "GVals": gvals,
-                    "DaoTokens": c["DaoTokens"], "DaoOwner": 1, "AclOwner": [c["ParamOwner"]], "KeySeed": seed},
+                    "DaoTokens": c["DaoTokens"], "DaoOwner": 1, "AclOwner": [c["ParamOwner"]], "KeySeed": seed,
+                    "Exported": c["GenExported"], "PrevPowers": list(c["GenPrev"])},
             "fracDen": c["FracDen"]}
 
 
